@@ -42,14 +42,20 @@ def r1_stable_insertion(ctx):
     if not ctx.floor('loop-carried link walk in DualLinkedList::add', len(adv), 1):
         return
     for (h, b, i, var, link) in adv:
-        # start of the walk
+        # start of the walk: every definition of the walk variable before the loop must be the same sentinel
         pre = [d for d in f._defs() if d[0] == var and not d[3] and d[1] not in loops[h]]
-        start = None
+        starts = set()
         for (l, db, di, _) in pre:
             st = f.stmts(db)[di] if di != 'T' else None
-            if st:
-                rf = receiver_field(f.expr_rvalue(st['r'], db, di))
-                start = rf
+            if st is not None:
+                t0 = f.expr_rvalue(st['r'], db, di)
+                if peel(t0)[0] == 'call' and not peel(t0)[1].startswith(('<', 'std::', 'core::')):
+                    starts.add('call:' + short(peel(t0)[1]))
+                else:
+                    starts.add(receiver_field(t0))
+            else:
+                starts.add('call')
+        start = next(iter(starts)) if len(starts) == 1 else ('mixed:' + '/'.join(sorted(map(str, starts))))
         # advance predicate
         atoms = [a for s, a in f.guard_atoms(b) if s in loops[h]]
         pred = None
@@ -89,6 +95,47 @@ def r1_stable_insertion(ctx):
                   'sorted insertion is stable: a new node is placed after every existing node with an equal timestamp '
                   '(walk from %s along %s, advance iff cur.time %s new.time, insert %s cur)' % (start, link, pred, side),
                   f.where(b), {'walk_start': start, 'link': link, 'advance_iff_cur_time': pred, 'insert': side})
+
+
+def r1b_all_time_walks(ctx):
+    """every loop in the list module that walks along a link while comparing node times must use the stable predicate"""
+    ctx.set_rule('C03.R1')
+    P = ctx.P
+    n = 0
+    for f in P.fn_list:
+        if not f.key.startswith('des_cqueue::stable::linked_list::') or f.kind == 'promoted':
+            continue
+        for h, body in f.loops().items():
+            for b in sorted(body):
+                for i, st in enumerate(f.stmts(b)):
+                    if st['k'] != 'assign' or st['p']['pr']:
+                        continue
+                    t = f.expr_rvalue(st['r'], b, i)
+                    if not (t[0] == 'field' and t[2] in ('prev', 'next')):
+                        continue
+                    v = st['p']['l']
+                    dv = [d for d in f._defs() if d[0] == v and not d[3]]
+                    if not (any(d[1] in body for d in dv) and any(d[1] not in body for d in dv)):
+                        continue
+                    atoms = [a for s2, a in f.guard_atoms(b) if s2 in body and a[0] == 'cmp']
+                    timed = []
+                    for a in atoms:
+                        l, r, op = a[2], a[3], a[1]
+                        lt = l[0] == 'field' and l[2] == 'time' and l[1][0] in ('local', 'phi')
+                        rt = r[0] == 'field' and r[2] == 'time' and r[1][0] in ('local', 'phi')
+                        if lt and not rt:
+                            timed.append(op)
+                        elif rt and not lt:
+                            timed.append(SWAP[op])
+                    if not timed:
+                        continue   # walks that do not compare times (e.g. the search by id in cancel)
+                    n += 1
+                    ctx.touch(f)
+                    want = 'gt' if t[2] == 'prev' else 'le'
+                    ctx.check(timed == [want], 'time-walk:%s' % f.key.split('::')[-1],
+                              'a walk along `%s` in %s advances iff cur.time %s new.time — the only predicate that places a new node after all nodes with an equal timestamp' % (t[2], short(f.key), '>' if want == 'gt' else '<='),
+                              f.where(b), {'link': t[2], 'advance_iff_cur_time': timed})
+    ctx.floor('time-comparing link walks in the list module', n, 1)
 
 
 def _locals_in(f, tree, var):
@@ -265,6 +312,7 @@ def r4_no_address_order(ctx):
 
 def run(ctx):
     r1_stable_insertion(ctx)
+    r1b_all_time_walks(ctx)
     for cfg in [c for c in ('A', 'B') if c in ctx.progs]:
         r2_zero_container(ctx, cfg)
     ctx.cfg = 'A'
